@@ -122,9 +122,9 @@ def check_c55(ctx):
     if q:
         names, vals, pairs, bodies, data, cuts = [1, 127, 128, 70000], [0, 1, 127, 128, 65491, 65492, 70000], 2, [0, 65501], 3, 1
     else:
-        names = [1, 127, 128, 300, 65492, 65493, 70000]
-        vals = [0, 1, 127, 128, 65364, 65491, 65492, 65535, 65536, 70000, 140000]
-        pairs, bodies, data, cuts = 2, [0, 1, 65500, 65501, 200000], 4, 2
+        names = [1, 127, 128, 65492, 65493, 70000]
+        vals = [0, 1, 127, 128, 65364, 65491, 65492, 65535, 65536, 140000]
+        pairs, bodies, data, cuts = 2, [0, 65500, 65501, 200000], 4, 1
     consts = {"NAMES": _set(names), "VALS": _set(vals), "PAIRS": pairs, "BODIES": _set(bodies),
               "DATA": data, "CUTS": cuts, "SIDES": '{"req", "resp"}'}
     ctx.cov["constants"]["MC_Fcgi"] = consts
